@@ -124,3 +124,16 @@ pub fn wait_until(max_ms: u64, mut cond: impl FnMut() -> bool) -> bool {
         }
     }
 }
+
+/// Waits until the process has no more than `baseline` threads: a thread whose closure has
+/// returned (so that `scope` / `join` let the caller go on) may still be freeing its runtime
+/// structures, which would blur an allocator bracket taken right away.
+#[cfg(not(miri))]
+pub fn settle_threads(baseline: usize, max_ms: u64) -> bool {
+    wait_until(max_ms, || crate::procfs::tasks().len() <= baseline)
+}
+
+#[cfg(miri)]
+pub fn settle_threads(_baseline: usize, _max_ms: u64) -> bool {
+    true
+}
